@@ -468,8 +468,12 @@ def runSection (r : Report) (sec : Section) : Report := Id.run do
           r := r.addCover (if k < rcalls then "hash-fault-in-removal-loop" else if k == rcalls then "hash-fault-first-insertion" else "hash-fault-in-insertion-loop")
           if implP ≠ faultToken fkind then r := r.mismatch sec.idx l.idx s!"P={faultToken fkind}" s!"P={implP}"
           s := stepHashFault H s op.node replicas k
-          let implState := joinSp (l.obs.filter fun t => !(t.startsWith "P=") && !(t.startsWith "locked="))
-          let mine := observe H s probes
+          -- compared: key slice (order included), ring, node set. NOT the lookups: on the unsorted key slice a failure
+          -- inside the insertion loop leaves, Go's sort.Search bisects while the model's `searchGE` scans — they agree on
+          -- sorted slices only (every reachable state), so lookups in this broken state are outside the model
+          let noG := fun (t : String) => !(t.startsWith "P=") && !(t.startsWith "locked=") && !(t.startsWith "g=")
+          let implState := joinSp (l.obs.filter noG)
+          let mine := joinSp (((observe H s probes).splitOn " ").filter noG)
           if mine ≠ implState then r := r.mismatch sec.idx l.idx mine implState
           -- the code has no rollback: the ring is not in a reachable state any more (`hash_panic_in_insertion_breaks_property`);
           -- nothing further in this section is judged
